@@ -14,11 +14,12 @@ PhdrT = nf_shape(_L64['Elf_Phdr'])
 SymT = nf_shape(_L64['Elf_Sym'])
 NhdrT = nf_shape(_L64['Elf_Nhdr'])
 
-ELFStructsT = StructsT('ELFStructs', elfclass=OneOf(32, 64), little_endian=Bool)
+ElfClass = Choice(32, 64)
+ELFStructsT = StructsT('ELFStructs', elfclass=ElfClass, little_endian=Bool)
 
 
 def ELFFileT(**more):
-    a = dict(stream=Stream, stream_len=Nat, header=EhdrT, structs=ELFStructsT, elfclass=OneOf(32, 64),
+    a = dict(stream=Stream, stream_len=Nat, header=EhdrT, structs=ELFStructsT, elfclass=ElfClass,
              little_endian=Bool)
     a.update(more)
     return Obj('ELFFile', **a)
@@ -39,3 +40,6 @@ def SegmentT(cls='Segment', **more):
     a = dict(header=PhdrT, stream=Stream)
     a.update(more)
     return Obj(cls, **a)
+
+ELFFILE_INV_EF = ["self.elffile.structs.elfclass == self.elffile.elfclass",
+                  "self.elffile.stream_len == len(self.elffile.stream.B)"]
